@@ -1,8 +1,8 @@
-(* C03 — the value-log part of the write-ordering invariant.  It holds along every run of the
-   protocol that starts from a fresh store (first incarnation); recovery does NOT re-establish it
-   (Crash/Refuted.v, values_refuted): OpenWith reloads precommitted records without their values. *)
+(* C03 — the value-log part of the write-ordering invariant, preserved by every step.  Recovery
+   re-establishes it (Crash/RecoverProofs.v) since fix ccd70f3: a precommitted record is reloaded only
+   when its values are found in the value log with the recorded digest. *)
 From V Require Import Crash.Storage Crash.StorageProofs Crash.Protocol Crash.RecordProofs Crash.AhtProofs
-  Crash.InvProofs Crash.RecoverProofs Crash.Theorems.
+  Crash.InvProofs.
 From Coq Require Import ZifyN ZifyNat ZifyBool Lia.
 
 Section VP.
@@ -20,19 +20,21 @@ Definition vlog_of (x : vref) : N := match x with (v, _, _, _) => v end.
 Definition VF (f : file) : Prop :=
   len (os_view f) = bufoff f /\ offs_ge (len (durable f)) (pending f) /\ len (durable f) <= bufoff f.
 
+(* empty values are never looked at (neither by the reader nor by recovery) *)
 Definition val_view (s : st) (x : vref) : Prop :=
   match x with (v, vo, vn, hv) =>
-    exists f, nth_error (vls s) (N.to_nat v) = Some f /\ vo + vn <= f_offset f /\
-              H (slice (lview f) vo vn) = hv
+    len hv = 32 /\
+    (vn = 0 \/ exists f, nth_error (vls s) (N.to_nat v) = Some f /\ vo + vn <= f_offset f /\
+                         H (slice (lview f) vo vn) = hv)
   end.
 Definition val_dur (s : st) (x : vref) : Prop :=
   match x with (v, vo, vn, hv) =>
-    exists f, nth_error (vls s) (N.to_nat v) = Some f /\ vo + vn <= len (durable f) /\
-              H (slice (durable f) vo vn) = hv
+    vn = 0 \/ exists f, nth_error (vls s) (N.to_nat v) = Some f /\ vo + vn <= len (durable f) /\
+                        H (slice (durable f) vo vn) = hv
   end.
 
 Definition must_be_durable (s : st) (d : N) (i : nat) (x : vref) : Prop :=
-  N.of_nat i < d \/ exists j, phase_ s = PV j /\ (N.to_nat (vlog_of x) < j)%nat.
+  N.of_nat i < d \/ exists done, phase_ s = PV done /\ In (N.to_nat (vlog_of x)) done.
 
 Record VInv (s : st) (h : list trec) (d : N) : Prop := mkVInv {
   vv_files : Forall VF (vls s);
@@ -106,12 +108,13 @@ Lemma val_view_set s s' i f g x :
   (forall vo vn, vo + vn <= f_offset f -> slice (lview g) vo vn = slice (lview f) vo vn) ->
   val_view s x -> val_view s' x.
 Proof.
-  intros Ef Ev Ho Hs. destruct x as [[[v vo] vn] hv]. intros (f' & E' & L & Hh).
-  unfold val_view. rewrite Ev.
-  destruct (Nat.eq_dec i (N.to_nat v)) as [->|Hne].
-  - assert (f' = f) by congruence. subst f'. exists g. rewrite (nth_set_nth_same _ _ _ _ Ef).
-    split; [reflexivity|]. split; [lia|]. rewrite Hs by lia. auto.
-  - exists f'. rewrite nth_set_nth_other by auto. auto.
+  intros Ef Ev Ho Hs. destruct x as [[[v vo] vn] hv]. intros (Lh & [Z|(f' & E' & L & Hh)]).
+  - split; auto.
+  - split; [auto|]. right. rewrite Ev.
+    destruct (Nat.eq_dec i (N.to_nat v)) as [->|Hne].
+    + assert (f' = f) by congruence. subst f'. exists g. rewrite (nth_set_nth_same _ _ _ _ Ef).
+      split; [reflexivity|]. split; [lia|]. rewrite Hs by lia. auto.
+    + exists f'. rewrite nth_set_nth_other by auto. auto.
 Qed.
 
 Lemma val_dur_set s s' i f g x :
@@ -119,8 +122,8 @@ Lemma val_dur_set s s' i f g x :
   len (durable f) <= len (durable g) -> take (len (durable f)) (durable g) = durable f ->
   val_dur s x -> val_dur s' x.
 Proof.
-  intros Ef Ev Hl Ht. destruct x as [[[v vo] vn] hv]. intros (f' & E' & L & Hh).
-  unfold val_dur. rewrite Ev.
+  intros Ef Ev Hl Ht. destruct x as [[[v vo] vn] hv]. intros [Z|(f' & E' & L & Hh)]; [left; auto|].
+  right. rewrite Ev.
   destruct (Nat.eq_dec i (N.to_nat v)) as [->|Hne].
   - assert (f' = f) by congruence. subst f'. exists g. rewrite (nth_set_nth_same _ _ _ _ Ef).
     split; [reflexivity|]. split; [lia|].
@@ -233,7 +236,7 @@ Proof.
   - cbn [s1 vls]. apply Forall_set_nth; [auto|apply VF_append; auto].
   - cbn [s1 inflight]. apply Forall_app. split.
     + eapply Forall_impl; [|exact I]. exact Tv.
-    + constructor; [|constructor]. unfold val_view. exists (f_append f dd).
+    + constructor; [|constructor]. unfold val_view. split; [apply (H_len' H H_len)|]. right. exists (f_append f dd).
       cbn [s1 vls]. rewrite Nnat.Nat2N.id. rewrite (nth_set_nth_same _ _ _ _ En).
       split; [reflexivity|]. split.
       { unfold f_offset. cbn [f_append bufoff buf]. rewrite len_app. lia. }
@@ -257,8 +260,7 @@ Lemma vstep_OPre nv s h d i payload s' r :
 Proof.
   intros I [F If Hh] E (v & vo & vn & hv & Ei & Eb & B1 & B2 & B3) Ev Einf Eph.
   pose proof (Forall_nth _ _ _ _ If Ei) as Vx.
-  assert (Lh: len hv = 32).
-  { destruct Vx as (f & _ & _ & <-). apply (H_len' H H_len). }
+  assert (Lh: len hv = 32) by (destruct Vx as (Lh & _); exact Lh).
   constructor.
   - rewrite Ev. auto.
   - rewrite Einf. apply Forall_remove_nth. eapply Forall_impl; [|exact If].
@@ -286,29 +288,30 @@ Proof.
   destruct (phase_ s) eqn:Ep; cbn [phase_idle andb] in E; try discriminate.
   destruct (negb (precommitted s =? committed s)); [|discriminate].
   assert (s' = mkSt (s_cfg s) (txl s) (cml s) (vls s) (ahd s) (ahc s) (committed s) (calh s) (pbuf s)
-                    (palh s) (pts s) (acked s) (PV 0) (inflight s) (asize s) (alatest s) (acnt s)) by congruence.
+                    (palh s) (pts s) (acked s) (PV []) (inflight s) (asize s) (alatest s) (acnt s)) by congruence.
   subst s'. eapply (VInv_same_vls s); [reflexivity|reflexivity| |exact V].
-  intros i x [M|(j & M1 & M2)]; [left; auto|]. cbn [phase_] in M1. assert (j = 0%nat) by congruence. lia.
+  intros i x [M|(j & M1 & M2)]; [left; auto|]. cbn [phase_] in M1. assert (j = []) by congruence. subst j. destruct M2.
 Qed.
 
-Lemma vstep_OSyncV nv s h d s' : Inv nv s h d -> VInv s h d -> step s OSyncV = Ok s' -> VInv s' h d.
+Lemma vstep_OSyncV nv s h d v s' : Inv nv s h d -> VInv s h d -> step s (OSyncV v) = Ok s' -> VInv s' h d.
 Proof.
   intros I0 V E. unfold Protocol.step in E.
-  destruct (phase_ s) as [|i|t] eqn:Ep; try discriminate.
-  destruct (nth_error (vls s) i) as [g|] eqn:En; [|discriminate].
-  assert (s' = mkSt (s_cfg s) (txl s) (cml s) (set_nth (vls s) i (f_sync g)) (ahd s) (ahc s) (committed s)
-                    (calh s) (pbuf s) (palh s) (pts s) (acked s) (PV (S i)) (inflight s) (asize s)
+  destruct (phase_ s) as [|done|t] eqn:Ep; try discriminate.
+  destruct (existsb (Nat.eqb v) done); [discriminate|].
+  destruct (nth_error (vls s) v) as [g|] eqn:En; [|discriminate].
+  assert (s' = mkSt (s_cfg s) (txl s) (cml s) (set_nth (vls s) v (f_sync g)) (ahd s) (ahc s) (committed s)
+                    (calh s) (pbuf s) (palh s) (pts s) (acked s) (PV (v :: done)) (inflight s) (asize s)
                     (alatest s) (acnt s)) by congruence.
   subst s'. destruct V as [F I Hh].
   pose proof (Forall_nth _ _ _ _ F En) as Vg. pose proof (VF_wf _ Vg) as Wg.
   destruct (f_sync_spec g Wg) as (D1 & D2 & D3 & D4).
   set (s1 := mkSt _ _ _ _ _ _ _ _ _ _ _ _ _ _ _ _ _).
   assert (Tv: forall x, val_view s x -> val_view s1 x).
-  { intros x. apply (val_view_set s s1 i g (f_sync g) x En eq_refl).
+  { intros x. apply (val_view_set s s1 v g (f_sync g) x En eq_refl).
     - unfold f_offset at 2. rewrite D3, D4, len_nil. lia.
     - intros. rewrite lview_sync by auto. reflexivity. }
   assert (Td: forall x, val_dur s x -> val_dur s1 x).
-  { intros x. apply (val_dur_set s s1 i g (f_sync g) x En eq_refl).
+  { intros x. apply (val_dur_set s s1 v g (f_sync g) x En eq_refl).
     - rewrite D1, VF_len_lview by auto. destruct Vg as (_ & _ & C). unfold f_offset. lia.
     - rewrite D1. apply VF_durable_prefix; auto. }
   constructor.
@@ -317,14 +320,15 @@ Proof.
   - intros j r E'. destruct (Hh j r E') as (x & B & Vx & D). exists x. split; [auto|]. split; [auto|].
     intros [M|(k & M1 & M2)].
     + apply Td, D. left; auto.
-    + cbn [s1 phase_] in M1. assert (k = S i) by congruence. subst k.
-      destruct (Nat.eq_dec (N.to_nat (vlog_of x)) i) as [Eq|Ne].
+    + cbn [s1 phase_] in M1. assert (k = v :: done) by congruence. subst k.
+      destruct M2 as [Eq|Hin].
       * (* the file just synced: the view extent is now durable *)
-        destruct x as [[[v vo] vn] hv]. cbn [vlog_of] in Eq.
-        destruct Vx as (f' & E1 & L & Hv). rewrite Eq in E1. assert (f' = g) by congruence. subst f'.
-        unfold val_dur. exists (f_sync g). cbn [s1 vls]. rewrite Eq, (nth_set_nth_same _ _ _ _ En).
+        destruct x as [[[v' vo] vn] hv]. cbn [vlog_of] in Eq.
+        destruct Vx as (_ & [Z|(f' & E1 & L & Hv)]); [left; exact Z|].
+        rewrite <- Eq in E1. assert (f' = g) by congruence. subst f'.
+        unfold val_dur. right. exists (f_sync g). cbn [s1 vls]. rewrite <- Eq, (nth_set_nth_same _ _ _ _ En).
         split; [reflexivity|]. rewrite D1. rewrite VF_len_lview by auto. split; [lia|exact Hv].
-      * apply Td, D. right. exists i. split; [auto|lia].
+      * apply Td, D. right. exists done. split; [auto|exact Hin].
 Qed.
 
 Lemma vstep_OSyncTx nv s h d s' : Inv nv s h d -> VInv s h d -> step s OSyncTx = Ok s' ->
@@ -332,21 +336,30 @@ Lemma vstep_OSyncTx nv s h d s' : Inv nv s h d -> VInv s h d -> step s OSyncTx =
 Proof.
   intros I0 V E. unfold Protocol.step in E.
   destruct (phase_ s) as [|i|t] eqn:Ep; try discriminate.
-  destruct (Nat.eqb i (length (vls s))) eqn:Ei; cbn [negb] in E; [|discriminate].
+  destruct (Nat.eqb (length i) (length (vls s))) eqn:Ei; cbn [negb] in E; [|discriminate].
   apply Nat.eqb_eq in Ei.
+  destruct (if c_ahtsync (s_cfg s) then aht_sync (aht_of s) else Ok (aht_of s)) as [a| |] eqn:Ea;
+    cbn [bind] in E; try discriminate.
   destruct (f_setoffset (cml s) (44 * committed s)) as [c1|] eqn:Es; [|discriminate].
-  assert (s' = mkSt (s_cfg s) (f_sync (txl s)) (f_append c1 (pbuf_entries (pbuf s))) (vls s) (ahd s) (ahc s)
+  assert (s' = mkSt (s_cfg s) (f_sync (txl s)) (f_append c1 (pbuf_entries (pbuf s))) (vls s) (a_d a) (a_c a)
                     (committed s) (calh s) (pbuf s) (palh s) (pts s) (acked s) (PC (precommitted s))
-                    (inflight s) (asize s) (alatest s) (acnt s)) by congruence.
+                    (inflight s) (a_size a) (a_latest a) (a_cnt a)) by congruence.
   subst s'. destruct V as [F I Hh].
   constructor; cbn [vls inflight]; [exact F|exact I|].
   intros j r E'.
   { destruct (Hh j r E') as (x & B & Vx & D). exists x. split; [auto|].
     split; [exact Vx|]. intros _.
-    eapply val_dur_same; [reflexivity|]. apply D. right. exists i. split; [auto|].
-    (* every value log has been synced: its index is below the number of value logs *)
-    destruct x as [[[v vo] vn] hv]. destruct Vx as (f & E1 & _). cbn [vlog_of].
-    assert (N.to_nat v < length (vls s))%nat by (apply nth_error_Some; congruence). lia. }
+    destruct x as [[[v vo] vn] hv]. pose proof Vx as Vx'. destruct Vx' as (_ & [Z|(f & E1 & _)]).
+    { left. exact Z. }
+    eapply val_dur_same; [reflexivity|]. apply D. right. exists i. split; [auto|]. cbn [vlog_of].
+    (* every value log has been synced: nv distinct indices below nv are all of them *)
+    assert (Hv: (N.to_nat v < length (vls s))%nat) by (apply nth_error_Some; congruence).
+    pose proof (v_cph _ _ _ _ _ I0) as Cph. rewrite Ep in Cph. destruct Cph as (_ & _ & _ & (Nd & Fa) & _).
+    pose proof (v_nv _ _ _ _ _ I0) as Hnv.
+    assert (Incl: incl (seq 0 nv) i).
+    { apply NoDup_length_incl; [exact Nd|rewrite seq_length; lia|].
+      intros q Hq. apply in_seq. rewrite Forall_forall in Fa. specialize (Fa q Hq). lia. }
+    apply Incl. apply in_seq. lia. }
 Qed.
 
 Lemma vstep_OSyncC s h d s' : VInv s h d -> step s OSyncC = Ok s' -> VInv s' h d.
@@ -373,77 +386,9 @@ Proof.
     + eapply IH; [eapply step_OFlush; eauto|eapply vstep_OFlush; eauto|exact E].
     + eapply IH; [eapply step_OSyncStart; eauto|eapply vstep_OSyncStart; eauto|exact E].
     + eapply IH; [eapply step_OSyncV; eauto|eapply vstep_OSyncV; eauto|exact E].
-    + eapply IH; [eapply step_OSyncTx; eauto|eapply vstep_OSyncTx; eauto|exact E].
+    + eapply IH; [eapply (proj1 (step_OSyncTx H H_len _ _ _ _ _ I E1))|eapply vstep_OSyncTx; eauto|exact E].
     + destruct (step_OSyncC H H_len _ _ _ _ _ I E1) as (I' & _).
       eapply IH; [exact I'|eapply vstep_OSyncC; eauto|exact E].
 Qed.
-
-(* ================= ack_implies_durable, full statement, first incarnation ================= *)
-Definition values_durable_for (s : st) (k : N) : Prop :=
-  exists raw prev body n v vo vn hv f,
-    tx_at (durable (txl s)) (durable (cml s)) k = Some raw /\
-    parse_rec H raw = Some (k, prev, body, n) /\ body_vref body = Some (v, vo, vn, hv) /\
-    nth_error (vls s) (N.to_nat v) = Some f /\ vo + vn <= len (durable f) /\
-    H (slice (durable f) vo vn) = hv.
-
-Theorem ack_implies_durable c nv s :
-  c_prealloc c = false -> 0 < c_thld c -> reach0 H c nv s ->
-  acked s <= committed s /\
-  history_ok H (durable (txl s)) (durable (cml s)) (acked s) /\
-  forall k, 1 <= k <= acked s -> values_durable_for s k.
-Proof.
-  intros Hp Ht (ops & E).
-  destruct (run_VInv nv ops _ _ _ _ (Inv_init H c nv Hp Ht) (VInv_init c nv) E) as (h & d & I & V).
-  destruct (Inv_read H H_len _ _ _ _ I) as (A & B).
-  pose proof (v_ack _ _ _ _ _ I) as Hack. pose proof (v_cd _ _ _ _ _ I) as Hcd.
-  split; [exact Hack|]. split; [intros k Hk; apply A; lia|].
-  intros k Hk.
-  destruct (B k ltac:(lia)) as (r & R1 & R2).
-  destruct (vv_hist _ _ _ V _ _ R1) as (x & X1 & X2 & X3).
-  destruct x as [[[v vo] vn] hv].
-  destruct X3 as (f & F1 & F2 & F3); [left; lia|].
-  destruct (A k ltac:(lia)) as (raw & prev & body & n & T1 & T2 & _).
-  assert (raw = t_raw r) by congruence. subst raw.
-  (* the parsed body is the ghost body *)
-  pose proof (v_chain _ _ _ _ _ I) as Ch.
-  destruct (chain_nth H H_len _ _ _ _ _ _ Ch R1) as ((Hparse & _) & _).
-  specialize (Hparse (t_raw r) (take_all _)). rewrite Hparse in T2.
-  assert (body = t_body r) by congruence. subst body.
-  exists (t_raw r), prev, (t_body r), n, v, vo, vn, hv, f. repeat split; auto.
-  rewrite Hparse. congruence.
-Qed.
-
-(* ... and after a first crash the values of every acknowledged transaction are readable *)
-Theorem crash_values_first_crash c nv s im :
-  c_prealloc c = false -> 0 < c_thld c -> reach0 H c nv s -> crash s im ->
-  forall k, 1 <= k <= acked s ->
-    exists raw prev body n v vo vn hv img,
-      tx_at (i_txl im) (i_cml im) k = Some raw /\ parse_rec H raw = Some (k, prev, body, n) /\
-      body_vref body = Some (v, vo, vn, hv) /\ nth_error (i_vls im) (N.to_nat v) = Some img /\
-      vo + vn <= len img /\ H (slice img vo vn) = hv.
-Proof.
-  intros Hp Ht R0 Cr k Hk.
-  destruct (ack_implies_durable c nv s Hp Ht R0) as (_ & _ & Vd).
-  destruct (Vd k Hk) as (raw & prev & body & n & v & vo & vn & hv & f & T1 & T2 & T3 & T4 & T5 & T6).
-  pose proof (reach0_reach H c nv s R0) as R.
-  destruct (crash_safety_logs H H_len c nv s im Hp Ht R Cr) as (_ & _ & _ & _ & _ & _ & _ & Tx & _).
-  (* the value log image keeps the durable prefix *)
-  destruct R0 as (ops & E).
-  destruct (run_VInv nv ops _ _ _ _ (Inv_init H c nv Hp Ht) (VInv_init c nv) E) as (h & d & I & V).
-  pose proof (Forall_nth _ _ _ _ (vv_files _ _ _ V) T4) as (Va & Vb & Vc).
-  destruct Cr as (_ & _ & Cv & _).
-  assert (Himg: exists img, nth_error (i_vls im) (N.to_nat v) = Some img /\ crash_image f img).
-  { clear -Cv T4. revert T4. generalize (N.to_nat v) as i. induction Cv as [|a b l l' Hab Cv IH]; intros [|i] T4; cbn in *; try discriminate.
-    - exists b. split; [reflexivity|]. congruence.
-    - apply IH; auto. }
-  destruct Himg as (img & Ei & Ci).
-  destruct (crash_image_prefix (len (durable f)) f img Vb ltac:(lia) Ci) as (P1 & P2).
-  rewrite take_all in P1.
-  exists raw, prev, body, n, v, vo, vn, hv, img.
-  split; [rewrite (Tx k Hk); exact T1|]. split; [exact T2|]. split; [exact T3|]. split; [exact Ei|].
-  split; [lia|]. rewrite <- T6. f_equal.
-  apply (slice_eq_of_take _ _ (len (durable f))); [lia|]. rewrite P1. symmetry. apply take_all.
-Qed.
-
 
 End VP.
